@@ -56,9 +56,10 @@ fn parse_case(e: &Sexp) -> Result<(x::Strategy, fol::Formula), String> {
         _ => Err("(strategy formula) expected".into()),
     }
 }
-fn outcome(o: x::Outcome) -> Sexp {
+/// `(strategy G)`, so that "output differs from input" means "some rule fired"
+fn outcome(s: x::Strategy, o: x::Outcome) -> Sexp {
     match o {
-        x::Outcome::Done(f) => conv::formula(&f),
+        x::Outcome::Done(f) => l(vec![a(x::strategy_name(s)), conv::formula(&f)]),
         x::Outcome::Nonterminating => l(vec![a("nonterminating")]),
     }
 }
@@ -70,12 +71,12 @@ fn gen_strategy_case(rng: &mut Rng) -> Sexp {
 /// CLASSIC alone under a strategy
 fn run_simplify_cls(e: &Sexp) -> Result<Sexp, String> {
     let (s, f) = parse_case(e)?;
-    Ok(outcome(x::run_strategy(CLASSIC.to_vec(), s, f)))
+    Ok(outcome(s, x::run_strategy(CLASSIC.to_vec(), s, f)))
 }
 /// the CLI's classic portfolio: INTUITIONISTIC ++ HT ++ CLASSIC
 fn run_simplify_full_classic(e: &Sexp) -> Result<Sexp, String> {
     let (s, f) = parse_case(e)?;
-    Ok(outcome(x::run_strategy([INTUITIONISTIC, HT, CLASSIC].concat(), s, f)))
+    Ok(outcome(s, x::run_strategy([INTUITIONISTIC, HT, CLASSIC].concat(), s, f)))
 }
 /// generator of the semantic op on the full portfolio: the case together with the
 /// implementation's output, `((strategy F) G)`
@@ -88,6 +89,17 @@ fn gen_sem_full(rng: &mut Rng) -> Sexp {
         _ => l(vec![a("panic")]),
     };
     l(vec![case, out])
+}
+/// tool op (corpus construction, mutant trials): parse anthem's concrete syntax into the wire format
+fn run_parse(e: &Sexp) -> Result<Sexp, String> {
+    let text = conv::string_of(e)?;
+    match text.parse::<fol::Formula>() {
+        Ok(f) => Ok(conv::formula(&f)),
+        Err(_) => Ok(l(vec![a("err"), crate::sexp::s("ParseError")])),
+    }
+}
+fn gen_parse(_rng: &mut Rng) -> Sexp {
+    crate::sexp::s("exists X$i (X$i = 1 and p(X$i))")
 }
 fn run_identity(e: &Sexp) -> Result<Sexp, String> {
     Ok(e.clone())
@@ -103,5 +115,6 @@ pub fn ops() -> Vec<Op> {
         Op { name: "simplify_cls", generate: gen_strategy_case, run: run_simplify_cls },
         Op { name: "simplify_full_classic", generate: gen_strategy_case, run: run_simplify_full_classic },
         Op { name: "sem_simplify_full_classic", generate: gen_sem_full, run: run_identity },
+        Op { name: "sc_parse", generate: gen_parse, run: run_parse },
     ]
 }
